@@ -131,6 +131,23 @@ static void pbkdf2(void)
         if (memcmp(o, e, 40)) hx_fail(hm ? "pbkdf2-hmac:value" : "pbkdf2:value", "differs from RFC 8018 for count=1000");
         hx_free(o);
     }
+    /* block indices beyond 16 and (thorough) 24 bits: the blocks of T are independent, so single blocks of a long output are compared with F(P, S, c, i) computed by the reference */
+    for (int hm = 0; hm < 2; hm++) for (int big = 0; big <= (tier ? 1 : 0); big++) {
+        uint32_t top = big ? ((uint32_t)1 << 24) : 65536u; size_t ol = (size_t)(top + 1) * 32 + 5; uint8_t *o = malloc(ol + 8);
+        if (!o) { printf("CAPPED no memory for a %zu-byte PBKDF2 output\n", ol); continue; }
+        memset(o + ol, 0xC5, 8);
+        if (hm) ascon_pbkdf2_hmac(o, ol, pw, 9, salt, 7, 1); else ascon_pbkdf2(o, ol, pw, 9, salt, 7, 1);
+        uint32_t probe[] = {1, 2, 255, 256, 257, 65535, 65536, 65537, top - 1, top, top + 1, top + 2};
+        for (unsigned k = 0; k < sizeof probe / sizeof probe[0]; k++) {
+            uint32_t idx = probe[k]; if ((size_t)(idx - 1) * 32 >= ol) continue;
+            uint8_t buf[16], t[32]; memcpy(buf, salt, 7); buf[7] = (uint8_t)(idx >> 24); buf[8] = (uint8_t)(idx >> 16); buf[9] = (uint8_t)(idx >> 8); buf[10] = (uint8_t)idx;
+            if (hm) ref_hmac(0, pw, 9, buf, 11, t); else ref_cxof(0, (const uint8_t *)"PBKDF2", 6, pw, 9, 32, buf, 11, t, 32);
+            size_t off = (size_t)(idx - 1) * 32, n = ol - off < 32 ? ol - off : 32; hx_stat("evaluations", 1);
+            if (memcmp(o + off, t, n)) hx_fail(hm ? "pbkdf2-hmac:value" : "pbkdf2:value", "block %u of a %zu-byte output differs from RFC 8018 F(P, S, 1, %u)", idx, ol, idx);
+        }
+        for (int i = 0; i < 8; i++) if (o[ol + i] != 0xC5) { hx_fail(hm ? "pbkdf2-hmac:stray-write" : "pbkdf2:stray-write", "wrote beyond a %zu-byte output", ol); break; }
+        free(o);
+    }
     hx_sample("pbkdf2 (cXOF PRF and HMAC): pw/salt lengths x count {0,1,2,3,4,5,10} x outlen {0,1,31,32,33,63,64,65,96,100}, pattern %d", pat);
     free(e);
 }
